@@ -18,6 +18,9 @@ The template is Verus source with holes.  Holes are `//@@` directives:
         //@@ LOOPINV                       (scaffolding inserted between loop header and `{`)
         //@@<  <loop header tokens>
         //@@>  <invariant/decreases text>
+        //@@ INVCLAIM                      (a loop-invariant conjunct that IS the property in inductive form: part of the
+        //@@<  <loop header tokens>          contract, labelled `//# label [Cxx]`; placed after a LOOPINV on the same loop;
+        //@@>  <conjunct, //# label [Cxx]>    its failure is an obligation failure, other invariants stay scaffolding)
   //@@ END
 
 Everything else in the template is passed through.  The body of each FN is copied byte
@@ -151,7 +154,7 @@ class BodyEmitter:
                 self._verb(cur, toks[i - 1].end if i > 0 else cur)
                 cur = max(cur, toks[i - 1].end)
                 for text, tline, dk in self.insert[i]:
-                    if dk == "CLAIM":
+                    if dk in ("CLAIM", "INVCLAIM"):
                         m = _LABEL.search(text)
                         lab = m.group(1) if m else None
                         props = [p for p in ((m.group(2) or "") if m else "").split(",") if p]
@@ -661,7 +664,7 @@ def _emit_fn(unit, repo, rel, scope, name, opts, flags, contract, directives, va
         if (want == "all" and not hits) or (want != "all" and len(hits) != int(want)):
             msg = "anchor lost in %s (%s line %d): pattern `%s` found %d times, want %s" % (
                 qual, os.path.basename(template_path), tline, pat.strip(), len(hits), want)
-            if dk in ("HINT", "LOOPINV", "CLAIM"):
+            if dk in ("HINT", "LOOPINV", "CLAIM", "INVCLAIM"):
                 soft_lost.append(msg)
                 return None, n
             raise GenError(msg)
@@ -679,12 +682,16 @@ def _emit_fn(unit, repo, rel, scope, name, opts, flags, contract, directives, va
                                        "line": sf.text.count("\n", 0, toks[h].start) + 1,
                                        "original": sf.text[toks[h].start:toks[per_end.get(h, h + n) - 1].end],
                                        "replacement": _subst(rep, per_hit.get(h, binds))})
-        elif dk in ("HINT", "LOOPINV", "CLAIM"):
+        elif dk in ("HINT", "LOOPINV", "CLAIM", "INVCLAIM"):
             where = dopts[0] if dopts and dopts[0] in ("after", "before") else "after"
             hits, n = locate(dk, dopts, pat, tline)
             for h in hits or []:
                 at = per_end.get(h, h + n) if where == "after" else h
-                scaffold.append((at, rep, tline, dk))
+                # wildcard captures ($$1, $$2, ...) belong to THIS anchor: substitute them now (metavariables are
+                # substituted late, from the function-wide bindings)
+                hb = per_hit.get(h, {})
+                rep_h = re.sub(r"\$\$([0-9]+)", lambda m: hb.get("$$" + m.group(1), m.group(0)) if isinstance(hb.get("$$" + m.group(1)), str) else m.group(0), rep)
+                scaffold.append((at, rep_h, tline, dk))
             if not hits:
                 scaffold.append((None, rep, tline, dk))
         else:
@@ -699,7 +706,7 @@ def _emit_fn(unit, repo, rel, scope, name, opts, flags, contract, directives, va
             continue
         rep = _subst(rep, binds)   # late substitution: a hint may use a name bound by a later anchor
         insert.setdefault(at, []).append((rep, tline, dk))
-        if dk == "CLAIM" and not vacuity:
+        if dk in ("CLAIM", "INVCLAIM") and not vacuity:
             m = _LABEL.search(rep)
             if m:
                 unit.clauses.append({"fn": qual, "label": m.group(1), "props": [p for p in (m.group(2) or "").split(",") if p],
